@@ -298,6 +298,16 @@ def raw_state(obj):
     return out
 
 
+def flat_state(d, prefix=""):
+    out = {}
+    for k, v in d.items():
+        if isinstance(v, dict):
+            out.update(flat_state(v, prefix + k + "."))
+        else:
+            out[prefix + k] = v
+    return out
+
+
 def diff_keys(a, b, prefix=""):
     keys = []
     for k in sorted(set(a) | set(b)):
@@ -732,22 +742,23 @@ class C03Check(StreamCheckBase):
                         # attributes of a lazily created budget manager have no 'before'
                         changed = [x for x in changed if not x.endswith("(presence)")]
                         if changed:
-                            ctx.violate(
-                                "state-changed-by-query",
-                                subj,
-                                f"spurious {kind} query at chunk {k} ({slot}) changed {changed}",
-                                cond={"attrs": sorted(set(x.split('.')[-1] for x in changed))},
-                            )
+                            # judged at the end of the world: only attributes that update() itself advances (or a
+                            # generator) are 'state' in the sense of the property, not e.g. a diagnostic cache
+                            self._pending.append((changed, kind, k, slot))
                         if kind in ("dup", "noutil") and slot == "mid":
                             # identical arguments, identical answer
                             if not same(list(np.asarray(q2).tolist()), list(np.asarray(q).tolist())) or (kind == "dup" and not same(u2, u)):
                                 ctx.violate("repeat-differs", subj, f"repeated query at chunk {k} answered {list(q2)} instead of {list(q)}", cond={})
             # commit
+            snap_u0 = snapshot(drv.obj) if with_injections else None
             try:
                 drv.update_rows(rows, q, u)
             except Exception as e:
                 record.append(("update", k, {"exc": type(e).__name__, "msg": str(e)[:80]}))
                 return drv, "update-raised"
+            if with_injections:
+                snap_u1 = snapshot(drv.obj)
+                self._upd_written.update(x for x in diff_keys(snap_u0, {k_: v for k_, v in snap_u1.items() if k_ in snap_u0}) if not x.endswith("(presence)"))
             if not drv.is_manager and drv.clf_peer.kind == "pwc":
                 ql = list(np.asarray(q, dtype=int).tolist())
                 drv.clf_peer.learn([rows[i] for i in ql], [drv.y[pos + i] for i in ql], pos + c, ctx)
@@ -779,6 +790,7 @@ class C03Check(StreamCheckBase):
         subj = subject_name(sc["subject"])
         ctx.log.add("subject", sc["subject"])
         rec_r, rec_s = [], []
+        self._pending, self._upd_written = [], set()
         try:
             _, err_r = self._run_world(sc, ctx, False, rec_r)
         except Exception as e:  # construction failed etc.
@@ -786,7 +798,18 @@ class C03Check(StreamCheckBase):
             return ctx.result(sig=self._sig(sc, ctx), extra={"aborted": True})
         if err_r is not None:
             ctx.notes.append(f"world R stopped: {err_r} {rec_r[-1]}")
+        self._pending, self._upd_written = [], set()
         _, err_s = self._run_world(sc, ctx, True, rec_s)
+        for changed, kind, k, slot in self._pending:
+            state = [x for x in changed if x in self._upd_written or "random_state" in x]
+            if state:
+                ctx.violate(
+                    "state-changed-by-query",
+                    subj,
+                    f"spurious {kind} query at chunk {k} ({slot}) changed {state} (attributes that update() advances)",
+                    cond={"attrs": sorted(set(x.split('.')[-1] for x in state))},
+                )
+                break
         for a in rec_r:
             ctx.log.add("R:" + a[0], a[2])
         for a in rec_s:
@@ -1157,6 +1180,8 @@ class C10Check(StreamCheckBase):
         subj = subject_name(sc["subject"])
         decisions = []
         self._utils = []
+        if not hasattr(self, "_upd_written"):
+            self._upd_written = set()
         pos = 0
         p = sc["subject"]["params"]
         for k, c in enumerate(chunks):
@@ -1186,8 +1211,11 @@ class C10Check(StreamCheckBase):
                     if c > int((p.get("w") or 10**9)):
                         ctx.probe("chunk_gt_w")
             ql = [int(i) for i in q]
+            snap_u0 = snapshot(drv.obj)
             try:
                 drv.update_rows(rows, q, u)
+                snap_u1 = snapshot(drv.obj)
+                self._upd_written.update(x for x in diff_keys(snap_u0, {k_: v for k_, v in snap_u1.items() if k_ in snap_u0}) if not x.endswith("(presence)"))
             except Exception as e:
                 if judge_protocol:
                     cond = {"chunked": c > 1}
@@ -1210,6 +1238,7 @@ class C10Check(StreamCheckBase):
         ctx = Ctx(self.prop, keep_log)
         subj = subject_name(sc["subject"])
         n = sum(sc["chunks"])
+        self._upd_written = set()
         try:
             dec_k, drv_k, err_k = self._run(sc, sc["chunks"], ctx, True)
         except Exception as e:
@@ -1240,9 +1269,12 @@ class C10Check(StreamCheckBase):
                         cond={"manager": mgr},
                     )
                 else:
-                    s1, sk = raw_state(drv_1.obj), raw_state(drv_k.obj)
-                    if not close(s1, sk, rtol=1e-12, atol=1e-13):
-                        keys = [k for k in s1 if not close(s1.get(k), sk.get(k), rtol=1e-12, atol=1e-13)]
+                    # "the resulting budget/threshold state": the attributes update() advances (and generators),
+                    # not e.g. a diagnostic cache written by query
+                    s1, sk = flat_state(raw_state(drv_1.obj)), flat_state(raw_state(drv_k.obj))
+                    judged = [k for k in sorted(set(s1) | set(sk)) if k in self._upd_written or "random_state" in k]
+                    keys = [k for k in judged if k not in s1 or k not in sk or not close(s1[k], sk[k], rtol=1e-12, atol=1e-13)]
+                    if keys:
                         ctx.violate(
                             "chunking-changes-state",
                             subj,
